@@ -129,6 +129,24 @@ CHECKS = {
          'accepted by the own reader, bad specs be rejected; the arithmetic is also called '
          'directly with sizes up to 10000. Sampling, not exhaustive enumeration.',
     note='Trusted: reference arithmetic ref_sizes (integer floor), reference decoders.'),
+ 'C18': dict(
+    ref='DESIGN.md §5 C18',
+    technique='deterministic simulation: call-granularity seeded interleaving of 1-4 sessions of '
+              'every kind in one simulated process vs each session alone in a fresh forked '
+              'process; fault injection (short reads, I/O errors in live readers, cancellation, '
+              'failing calls in the history), second hash seed, additivity/permutation '
+              'experiments in sibling processes',
+    text='Seeded exploration of histories and schedules: sessions (API pipelines and real CLI '
+         'commands of all four subcommands, terminal-file edits, deliberately failing calls) run '
+         'interleaved or one after another in one process; every session\'s outcomes, captured '
+         'stdout, returned values and files must equal those of the same session alone in a '
+         'fresh process (self-relative oracle: cannot fire on a refactoring), a session hit by an '
+         'injected I/O error must raise or equal its fault-free self, the scenario must repeat '
+         'under a second hash seed up to line order of set-valued files, and outputs must be '
+         'additive over A+B and permute with the sentences. Sampling, not proof.',
+    note='Trusted: the fork-based fresh-process model, the ops interpreter and raw tree dumps '
+         '(tsim/simproc.py). Interleaving stops at call boundaries (no thread safety claimed by '
+         'any property). Additivity of deterministic binarization labels is not required.'),
 }
 
 NOT_BUILT_YET = {}
